@@ -65,6 +65,11 @@ class Ctx:
         if f is None:
             self.lost(rid, key, missing=True)
             raise AnchorLost(key)
+        if f.get("signature_changed"):
+            # parameters were added, removed, reordered or retyped: rules written against parameter positions
+            # would read the wrong values
+            self.lost(rid, "%s (its signature changed: %s)" % (key, f["signature_changed"]), missing=True)
+            raise AnchorLost(key)
         return f
 
     def where(self, f, line=None):
@@ -81,6 +86,11 @@ class Ctx:
                 r["undecided"] = r.get("undecided", 0) + 1
                 self.obligations.append({"rule": rid, "key": "%s|undecided:floor" % rid, "ok": True, "undecided": True,
                                          "msg": "undecided: rule matched %d instances, %d on the reviewed tree" % (r["instances"], r["floor"]), "where": ""})
+            elif r["instances"] < r["floor"] and any(o.get("undecided") for o in self.obligations):
+                # nothing matched, and other rules of this check could not read the code either: the same rewrite
+                r["undecided"] = r.get("undecided", 0) + 1
+                self.obligations.append({"rule": rid, "key": "%s|undecided:floor" % rid, "ok": True, "undecided": True,
+                                         "msg": "undecided: rule matched no instance (%d on the reviewed tree) and other rules of this check are undecided too" % r["floor"], "where": ""})
             elif r["instances"] < r["floor"]:
                 self.obligations.append({"rule": rid, "key": "%s|floor" % rid, "ok": False,
                                          "msg": "rule matched %d instances, floor is %d (a rule that matches nothing passes vacuously)" % (r["instances"], r["floor"]),
